@@ -174,6 +174,11 @@ def install_handshake_loss():
     LOSS["installed"] = True
 
 
+PROBES = [0]
+EARLIER = set()
+INCOMPLETE = set()
+
+
 class Heartbeat:
     """Counts 50 ms ticks of the running loop: a wall-clock cap only yields a verdict when the loop was alive
     (>= 60 % of the ticks it should have had), otherwise the machine was starved and the case is inconclusive."""
@@ -296,7 +301,11 @@ async def _check_channels(a, b, out, desc, cap, hb):
         got = {"xy": [], "yx": []}
         twin.on("message", got["xy"].append)
         ch.on("message", got["yx"].append)
-        m1, m2 = f"{x.name}>{ch.id}:{ch.label}", f"{y.name}>{ch.id}:{ch.label}"
+        # unique per probe: a message of an earlier probe that arrives late (that probe ran into its cap) must not be taken for a
+        # duplicate of this one
+        PROBES[0] += 1
+        m1, m2 = f"{x.name}>{ch.id}:{ch.label}#{PROBES[0]}", f"{y.name}>{ch.id}:{ch.label}#{PROBES[0]}"
+        EARLIER.update((m1, m2))
         try:
             ch.send(m1)
             if twin.readyState == "open":
@@ -309,13 +318,23 @@ async def _check_channels(a, b, out, desc, cap, hb):
             out.fail("channel-send-raises", f"{type(exc).__name__}: {exc} on channel {ch.label!r}", desc, exc)
             continue
         t1 = time.monotonic()
-        while (got["xy"] != [m1] or got["yx"] != [m2]) and time.monotonic() - t1 < 5.0:
+
+        def late(m):
+            return isinstance(m, str) and m in EARLIER and m not in (m1, m2)
+
+        while ([m for m in got["xy"] if not late(m)] != [m1] or [m for m in got["yx"] if not late(m)] != [m2]) and time.monotonic() - t1 < 5.0:
             await asyncio.sleep(0.02)
+        n_late = sum(1 for m in got["xy"] + got["yx"] if late(m))
+        if n_late:
+            out.counters["late_messages_of_earlier_probes"] += n_late
+            got["xy"][:] = [m for m in got["xy"] if not late(m)]
+            got["yx"][:] = [m for m in got["yx"] if not late(m)]
         if got["xy"] != [m1] or got["yx"] != [m2]:
             wrong = [m for m in got["xy"] if m != m1] + [m for m in got["yx"] if m != m2] or len(got["xy"]) > 1 or len(got["yx"]) > 1
             if wrong:
                 out.fail("channel-message", f"channel {ch.label!r} (id {ch.id}): sent {m1!r}/{m2!r}, received {got}", desc)
             else:
+                INCOMPLETE.update((id(ch), id(twin)))
                 cap_verdict(out, hb, "channel-message", f"channel {ch.label!r} (id {ch.id}, maxRetransmits={ch.maxRetransmits}): sent {m1!r}/{m2!r}, "
                             f"received {got} within 5 s", desc)
         else:
@@ -327,7 +346,8 @@ async def _check_channels(a, b, out, desc, cap, hb):
 async def burst(x, y, ch, twin, got, out, desc, hb):
     """A reliable channel over the whole real stack (SCTP over DTLS over ICE on loopback): empty, tiny, non-ASCII, multi-fragment
     and binary messages both ways arrive exactly once, intact - in order on an ordered channel."""
-    tagx, tagy = f"{x.name}{ch.id}", f"{y.name}{ch.id}"
+    PROBES[0] += 1
+    tagx, tagy = f"{x.name}{ch.id}#{PROBES[0]}", f"{y.name}{ch.id}#{PROBES[0]}"
 
     def msgs(tag):
         return [f"{tag}:0", "", b"", f"{tag}:\u00e9\u4e16\U0001f600" * 40, bytes(range(256)) * 230 + tag.encode(), f"{tag}:" + "x" * 20000, bytes([7]) + tag.encode(),
@@ -335,6 +355,7 @@ async def burst(x, y, ch, twin, got, out, desc, hb):
 
     sent_x, sent_y = msgs(tagx), msgs(tagy)
     del got["xy"][:], got["yx"][:]
+    tainted = id(ch) in INCOMPLETE or id(twin) in INCOMPLETE  # an earlier probe on this channel hit its cap: stragglers may follow
     try:
         for m1, m2 in zip(sent_x, sent_y):
             ch.send(m1)
@@ -346,8 +367,16 @@ async def burst(x, y, ch, twin, got, out, desc, hb):
     while (len(got["xy"]) < len(sent_x) or len(got["yx"]) < len(sent_y)) and time.monotonic() - t1 < 10.0:
         await asyncio.sleep(0.02)
     out.counters["bursts_exchanged"] += 1
-    key = (lambda m: (type(m).__name__, m)) if ch.ordered else None
+    EARLIER.update(m for m in sent_x + sent_y if m not in ("", b""))
     for sent, rec, who in ((sent_x, got["xy"], x.name), (sent_y, got["yx"], y.name)):
+        stragglers = [m for m in rec if m in EARLIER and m not in sent]
+        if stragglers or tainted:
+            # messages of an earlier probe on this channel (it had run into its cap): not this burst's business
+            out.counters["late_messages_of_earlier_probes"] += len(stragglers)
+            rec = [m for m in rec if m not in stragglers]
+            for empty in ("", b""):
+                while rec.count(empty) > 1:
+                    rec.remove(empty)
         same = rec == sent if ch.ordered else sorted(map(repr, rec)) == sorted(map(repr, sent))
         if same and all(type(a) is type(b) for a, b in zip(sorted(rec, key=repr), sorted(sent, key=repr))):
             out.counters["messages_exchanged"] += len(sent)
@@ -359,6 +388,7 @@ async def burst(x, y, ch, twin, got, out, desc, hb):
             out.fail("channel-burst", f"channel {ch.label!r} (id {ch.id}, ordered={ch.ordered}) messages from {who}: sent {len(sent)}, received {len(rec)}: "
                      f"{'altered/unknown messages' if foreign else 'duplicates' if extra else 'wrong order or type'} {summary}", desc)
         else:
+            INCOMPLETE.update((id(ch), id(twin)))
             cap_verdict(out, hb, "channel-burst", f"channel {ch.label!r} (id {ch.id}) messages from {who}: only {len(rec)} of {len(sent)} arrived "
                         f"within 10 s", desc)
 
